@@ -348,7 +348,7 @@ def gen_problem(rng, cls, thorough):
 
 # ----------------------------------------------------------------------------- implementation-side oracle
 # finding F19 (fixed in ebed191; findings/F19_C17_oc_volume_large_gradients.py): its triple, used when the class regresses
-# NEW finding (caused by fix ebed191; findings/NEW_C17_oc_bisection_hang.py), reported to the integrator
+# second part of F19 (hang introduced by ebed191, fixed in bd6675c; findings/F19b_C17_oc_bisection_hang.py): used on regression
 HANG_PRED = 'minimize_oc returns'
 HANG_CLASS = 'multiplier bisection cannot reach l1l2tol in binary64'
 FINDING_SITE = 'minimize_oc'
@@ -563,14 +563,14 @@ def run(ctx):
                 problems.insert(0, ('replay', pr))
         except Exception:
             pass
-    nsmall, nlarge, nmal, nconv = (150, 24, 24, 12) if ctx.quick() else (1500, 160, 200, 60)
+    nsmall, nlarge, nmal, nconv = (300, 40, 40, 16) if ctx.quick() else (1500, 160, 200, 60)
     for _ in range(nsmall):
         problems.append(('small', gen_problem(rng, 'small', not ctx.quick())))
     for _ in range(nlarge):
         problems.append(('large', gen_problem(rng, 'large', not ctx.quick())))
     for _ in range(nmal):
         problems.append(('malformed', gen_problem(rng, 'malformed', not ctx.quick())))
-    for _ in range(4 if ctx.quick() else 30):
+    for _ in range(10 if ctx.quick() else 40):
         lp = gen_problem(rng, 'small', False)
         if lp['objective'] in ('inv', 'pow', 'exp'):
             lp['c'] = [float(t) * float(rng.choice([1e4, 1e5, 1e6])) for t in lp['c']]
@@ -634,7 +634,7 @@ def run(ctx):
         # np.sum model validation on the designs of this run
         for st in rec['states'][:3] + [rec['final']]:
             flat = [t for c in st for t in ([c[1]] if c[0] == 'scalar' else c[1] if c[0] == 'array' else [])]
-            if flat:
+            if flat and all(math.isfinite(t) for t in flat):
                 sum_checks.append(f'PrimFloat.eqb (np_sum {fl(flat)}) {fhex(float(np.sum(np.array(flat, dtype=float))))}')
         oracle(ctx, prob, rec, hits)
 
@@ -670,28 +670,11 @@ def run(ctx):
         cls, prob, obs = labels[idx]
         ctx.violation('correspondence', 'minimize_oc', 'model == implementation (bit-exact trajectory)', prob.get('malformed', cls),
                       dict(problem=prob, observed=obs, coq_check=checks[idx][1][:3000]), note='Coq model and implementation differ')
-    registered = any(f.get('call_site') == FINDING_SITE and f.get('predicate') == HANG_PRED and f.get('input_class') == HANG_CLASS
-                     for f in ctx.findings)
-    pending, nv = 0, 0
-    for h in hits:
+    for h in hits[:20]:
         info, pred, msg = h[0], h[1], h[2]
         prob = info['problem']
         icls = h[3] if len(h) > 3 else prob.get('malformed', 'well-formed problem')
-        if icls == HANG_CLASS and not registered:
-            # new finding not yet in known_findings.json: reported, listed in the evidence, does not fail the check
-            pending += 1
-            if pending <= 3:
-                ctx.extra.setdefault('new_findings_pending_registration', []).append(
-                    dict(call_site=FINDING_SITE, predicate=HANG_PRED, input_class=HANG_CLASS, problem=prob, detail=msg,
-                         demo='findings/NEW_C17_oc_bisection_hang.py'))
-            continue
-        nv += 1
-        if nv <= 20:
-            ctx.violation('impl-violates', FINDING_SITE, pred, icls, info, expected=msg)
-    if pending:
-        ctx.count('new-finding occurrences (pending registration in known_findings.json)', pending)
-        print(f'NEW-FINDING (pending registration): property=C17 {FINDING_SITE}: {HANG_PRED} [{HANG_CLASS}] on {pending} generated run(s); '
-              'demo findings/NEW_C17_oc_bisection_hang.py')
+        ctx.violation('impl-violates', FINDING_SITE, pred, icls, info, expected=msg)
 
 
 if __name__ == '__main__':
